@@ -196,6 +196,14 @@ pub fn workloads() -> Vec<Workload> {
             write_set: vec![0],
         },
         Workload {
+            name: "W18-registrations-into-different-registries",
+            about: "two threads register into different registries at the same time (an infix operator, a postfix operator; then a prefix operator, a function): all four are in effect afterwards, nobody waits for the other (registrations that look into each other's tables in opposite order would)",
+            pre: vec![Exec("1 + 1")],
+            threads: vec![vec![RegInfix("wa", 105, true, "A"), RegPrefix("wc", "C")], vec![RegPostfix("wb", "B"), RegFn("wd", "D")]],
+            post: vec![Exec("[1 wa 2, 1 wb, wc 1, wd()]")],
+            write_set: vec![0, 1, 2, 3],
+        },
+        Workload {
             name: "W17-reentrant-handler-in-execute-vs-registrations",
             about: "execute() of a program whose function handler itself calls execute(), while another thread registers an infix operator and a function: both evaluations and both registrations complete (a lock held across a whole evaluation and wanted by a registration would deadlock here)",
             pre: vec![Exec("1 + 1"), RegReentrantFn("reent")],
